@@ -1378,6 +1378,32 @@ func (c *ctx) stmts(ss []ast.Stmt, k string) string {
 		}
 		return code
 	case *ast.SwitchStmt:
+		// switch { case c1: A1 ... default: D }  with every case body returning = if c1 { A1 }; ...; D  (Go evaluates the case
+		// expressions top to bottom and takes the first true one): rewritten to that chain, so that it is the same Coq term
+		if s.Init == nil && s.Tag == nil {
+			var chain []ast.Stmt
+			var dflt []ast.Stmt
+			ok := true
+			for i, b := range s.Body.List {
+				cc := b.(*ast.CaseClause)
+				if cc.List == nil {
+					if i != len(s.Body.List)-1 {
+						ok = false
+					}
+					dflt = cc.Body
+					continue
+				}
+				if len(cc.List) != 1 || !terminates(cc.Body) {
+					ok = false
+					break
+				}
+				chain = append(chain, &ast.IfStmt{Cond: cc.List[0], Body: &ast.BlockStmt{List: cc.Body}})
+			}
+			if ok {
+				chain = append(chain, dflt...)
+				return c.stmts(append(chain, rest...), k)
+			}
+		}
 		// switch tag { case K: A ... }  every case body returns; no default: control falls to the statements after the switch
 		if s.Init != nil || s.Tag == nil {
 			fail("%s: switch form: %s", c.f.name, src(s))
